@@ -13,8 +13,11 @@ def reply(ws, status=b'101 Switching Protocols', upgrade=b'websocket', accept=No
     return b'HTTP/1.1 ' + status + b'\r\nUpgrade: ' + upgrade + b'\r\nConnection: Upgrade\r\nSec-WebSocket-Accept: ' + acc + b'\r\n' + extra + b'\r\n'
 
 
-def outcome(make_reply, stream=b''):
-    run = harness.drive(reads=lambda ws: [make_reply(ws) + stream, b''], connect_kwargs=dict(ping_rate=0))
+def outcome(make_reply, stream=b'', cuts=None):
+    def reads(ws):
+        data = make_reply(ws) + stream
+        return (harness.cut(data, [c for c in cuts if 0 < c < len(data)]) if cuts else [data]) + [b'']
+    run = harness.drive(reads=reads, connect_kwargs=dict(ping_rate=0))
     names = [e.name for e in run.events]
     return names, run
 
@@ -57,6 +60,21 @@ def run_cases(skip_known=False):
             if 'rejected' not in names or any(n in names for n in ('text', 'binary')) or (run.sock and not run.sock.closed):
                 return dict(found=True, input='upgrade reply: %s' % name, expected='Rejected, no message events, socket closed',
                             observed='events: %r, socket closed: %s' % (names, run.sock.closed if run.sock else None))
+    # "however the reply's headers are ... segmented": the verdict on every reply shape under small first reads, cuts
+    # around the terminator, and one byte per read
+    SEGS = [('first read of 1 byte', [1]), ('first read of 2 bytes', [2]), ('first read of 3 bytes', [3]), ('reads of 1, 1 and the rest', [1, 2]),
+            ('one byte per read', list(range(1, 400))), ('cut 2 bytes before the end of the header', None), ('cut 1 byte into the first frame', None)]
+    for name, mk, should_ready in CASES:
+        if skip_known and 'only in the case' in name:
+            continue
+        for sname, cuts in SEGS:
+            if cuts is None:
+                n = len(mk(harness.WebSocket('ws://example.com/')))
+                cuts = [n - 2] if 'before' in sname else [n + 1]
+            names, run = outcome(mk, stream=ref.server_frame(1, b'hi'), cuts=cuts)
+            if ('ready' in names) != should_ready or (not should_ready and 'rejected' not in names):
+                return dict(found=True, input='upgrade reply: %s; segmentation: %s' % (name, sname),
+                            expected='Ready' if should_ready else 'Rejected, no Ready', observed='events: %r' % names)
     # 16 KiB header block limit, terminated or not
     for name, block in (('17 KiB header block, terminated', b'HTTP/1.1 101 X\r\nX-Pad: ' + b'a' * 17000 + b'\r\n\r\n'),
                         ('17 KiB header block, unterminated', b'HTTP/1.1 101 X\r\nX-Pad: ' + b'a' * 17000)):
